@@ -616,7 +616,7 @@ func init() {
 			"Result.Cause is forced to 0x6F by the library on both sides; equality is on what the API lets a caller express",
 			"the identifier octet the library writes in front of the mandatory section management list is taken as emitted (round trip and lengths are what the statement asks)",
 		},
-		Oracles:      map[string]func(*core.Ctx, *core.Case){"cold-concurrent": coldConcurrent, "delivery-reuse": c18DeliveryReuse, "command": c18Command, "reject": c18Reject, "plmn": c18Plmn, "plmn-one": c18PlmnOne, "total": c18Total, "total-sweep": c18Sweep},
+		Oracles:      map[string]func(*core.Ctx, *core.Case){"cold-entries": coldEntries, "cold-concurrent": coldConcurrent, "delivery-reuse": c18DeliveryReuse, "command": c18Command, "reject": c18Reject, "plmn": c18Plmn, "plmn-one": c18PlmnOne, "total": c18Total, "total-sweep": c18Sweep},
 		StallSeconds: 30,
 		Floors: func(tier string, cov map[string]map[string]int64, cnt map[string]int64) []string {
 			var f []string
@@ -741,6 +741,7 @@ func init() {
 			}
 		}
 		us = append(us, coldUnits(tier, "uePolicyContainer", "uepolicy", "shared-parse")...)
+		us = append(us, coldEntryUnits(tier, "uePolicyContainer", "uepolicy")...)
 		return us
 	}
 	core.Register(p)
